@@ -41,6 +41,11 @@ def _system(draw, big):
                                  dipoles=False))
     n = len(spec["E"])
     theory = draw(st.sampled_from(["stR", "stR", "stF", "cRF"]))
+    if theory in ("stF", "cRF") and draw(st.sampled_from([False, True])):
+        # one site far away in energy: uphill Foerster rates so small that the numerical integration may give them
+        # either sign
+        k = draw(st.integers(0, n - 1))
+        spec["E"][k] = spec["E"][k] + draw(st.sampled_from([-1, 1])) * draw(st.integers(1500, 3500))
     td = draw(st.booleans())
     as_ops = draw(st.booleans()) if theory == "stR" else False
     secular = draw(st.booleans()) if theory != "stF" and not (td and as_ops) else False
